@@ -22,7 +22,7 @@ RUNJS = os.path.join(vf.VERIF, "harness", "jsscopes", "run.js")
 JVM = {"JAVA_TOOL_OPTIONS": "-XX:ParallelGCThreads=2 -Xmx3g -Xss64m"}
 ALLREF = '{"plain","tmpl","ntmpl","short","set","dot","optdot","key","method","getter","cls","regex","str"}'
 NSIM_Q, NSIM_T = 8, 150      # simulated traces (every complete successor of every state of a trace is a program)
-SIMCAP_Q, SIMCAP_T = 1000, 10000
+SIMCAP_Q, SIMCAP_T = 700, 10000
 NAMES = {"NamesA": ["a"], "NamesAB": ["a", "b"], "NamesABC": ["a", "b", "c"]}
 
 
@@ -434,7 +434,7 @@ def run():
         if len(progs) - nsim < 500 or nsim < 30:
             raise vf.NoVerdict("generators produced too little (%d exhaustive, %d simulated)" % (len(progs) - nsim, nsim))
         files = _files()
-        served = sorted(rnd.sample(range(len(progs)), min(len(progs), 2000 if thorough else 400)))
+        served = sorted(rnd.sample(range(len(progs)), min(len(progs), 2000 if thorough else 300)))
         gen, fl, genb, flb = _drive(sd, progs, files, served)
         vf.log("drivers done at %.0fs: %d programs x 2 modes (%d also served), %d shipped scripts x 2 modes x 2 levels"
                % (time.time() - chk.t0, len(progs), len(served), len(files)))
@@ -453,7 +453,7 @@ def run():
         nseen = nagree = 0
         if node:
             pool = list(range(len(progs)))
-            sample = rnd.sample(pool, min(len(pool), 2500 if thorough else 250))
+            sample = rnd.sample(pool, min(len(pool), 2500 if thorough else 200))
             nseen, nagree = _node_stage(chk, progs, gen, bad, sample)
 
         chk.cov["binding_selftest"] = ("appended to every contract run: 11 pairs (global renamed, reference left behind, token dropped, shorthand key "
